@@ -262,3 +262,10 @@ func Worker(id, tier string, seed int64, shard, shards int, out string) int {
 	}
 	return 0
 }
+
+// scratchDir returns (and creates) a directory under /verif/.scratch.
+func scratchDir(parts ...string) string {
+	p := filepath.Join(append([]string{core.VerifDir, ".scratch"}, parts...)...)
+	os.MkdirAll(p, 0o755)
+	return p
+}
